@@ -166,17 +166,26 @@ where
         env.execute_blocking();
         out.get()
     }));
-    let mut panics = take_panics();
+    // The panic log is process-wide and workers of an EARLIER job that panicked may still be winding
+    // down (they fail on their disconnected channels after `execute_blocking` has already unwound):
+    // whether THIS job panicked is decided by `catch_unwind` alone, the log only supplies a message
+    // (preferring one raised inside the source operators).
+    let log = take_panics();
+    let mut panics = vec![];
     let tagged = match res {
         Ok(Some(v)) => v,
         Ok(None) => {
-            panics.push("no sink result".into());
+            panics.push("no sink result".to_string());
             vec![]
         }
         Err(_) => {
-            if panics.is_empty() {
-                panics.push("panic".into());
-            }
+            let msg = log
+                .iter()
+                .find(|m| m.contains("/operator/source/"))
+                .or_else(|| log.first())
+                .cloned()
+                .unwrap_or_else(|| "panic".to_string());
+            panics.push(msg);
             vec![]
         }
     };
@@ -305,11 +314,32 @@ struct RangeRun {
     setups: Vec<(u64, u64)>,
     panic: bool,
     msg: String,
+    /// input class of (type, range, peers), used only to keep known-finding signatures narrow
+    tag: &'static str,
+}
+
+/// Input class of one (type, range, number of peers):
+///  * `above_i64_max`: a `usize` bound above `i64::MAX`;
+///  * `chunks_exceed_type_max`: proper range with lo + (p-1)*ceil((hi-lo)/p) above the type's MAX
+///    (the start of the last replica's chunk is not a value of the type).
+fn input_tag<T: RInt>(lo: i128, hi: i128, p: u64) -> &'static str {
+    if T::NAME == "usize" && lo.max(hi) > i64::MAX as i128 {
+        return "above_i64_max";
+    }
+    if lo < hi && p > 0 {
+        let p = p as i128;
+        let chunk = (hi - lo + p - 1) / p;
+        if lo + (p - 1) * chunk > T::MAXV {
+            return "chunks_exceed_type_max";
+        }
+    }
+    ""
 }
 
 trait RInt: Copy + Send + Sync + 'static {
     const MINV: i128;
     const MAXV: i128;
+    const NAME: &'static str;
     fn from128(v: i128) -> Option<Self>;
     fn to128(self) -> i128;
     fn direct(lo: Self, hi: Self, index: u64, peers: u64) -> (i128, i128);
@@ -321,6 +351,7 @@ macro_rules! impl_rint {
         impl RInt for $t {
             const MINV: i128 = <$t>::MIN as i128;
             const MAXV: i128 = <$t>::MAX as i128;
+            const NAME: &'static str = stringify!($t);
             fn from128(v: i128) -> Option<Self> {
                 <$t>::try_from(v).ok()
             }
@@ -417,6 +448,7 @@ fn range_case<T: RInt>(case: &Map<String, Value>, out: &mut Map<String, Value>) 
                 setups: j.setups,
                 panic: !j.panics.is_empty(),
                 msg: j.panics.first().cloned().unwrap_or_default(),
+                tag: input_tag::<T>(lo128, hi128, p),
             });
         } else {
             let mut subs = vec![];
@@ -442,6 +474,7 @@ fn range_case<T: RInt>(case: &Map<String, Value>, out: &mut Map<String, Value>) 
                 setups: vec![],
                 panic,
                 msg,
+                tag: input_tag::<T>(lo128, hi128, p),
             });
         }
     }
@@ -496,6 +529,7 @@ fn range_case<T: RInt>(case: &Map<String, Value>, out: &mut Map<String, Value>) 
                 "setups": r.setups.iter().map(|(g, n)| json!([g, n])).collect::<Vec<_>>(),
                 "panic": if r.panic { 1 } else { 0 },
                 "msg": r.msg,
+                "tag": r.tag,
             })
         })
         .collect();
